@@ -192,7 +192,12 @@ for _c, _d in zip(_get_global_filters, range(1, 4)):
 FAMILIES = [
     Family('Filter', attrs={'_until_position': Opt(POS), '_parso_cache_node': ANY, '_parser_scope': _PN,
                             '_node_context': ANY, '_origin_scope': Opt(_PN)}),
-    Family('Ctx', attrs={'parent_context': Opt(Obj('Ctx')), 'inference_state': Obj('InfState03')},
+    Family('Ctx', attrs={'parent_context': Opt(Obj('Ctx')), 'inference_state': Obj('InfState03'), 'tree_node': _PN},
+           axioms=[
+               # which contexts are function executions / modules, in terms of the syntax node they stand for
+               # (jedi: FunctionExecutionContext and AnonymousFunctionExecution wrap funcdef AND lambdef nodes)
+               'isinstance(o, BaseFunctionExecutionContext) == (o.tree_node.type == "funcdef" or o.tree_node.type == "lambdef")',
+               'isinstance(o, ModuleContext) == (o.tree_node.type == "file_input")'],
            methods={'get_filters': FnSpec('Context.get_filters', params=[('until_position', Opt(POS)),
                                                                          ('origin_scope', Opt(_PN))],
                                           defaults={'until_position': None, 'origin_scope': None},
